@@ -416,19 +416,19 @@ class AhocorasickTokenizer(Tokenizer):
         """Set up helpers to narrow down possible extractors."""
         # Build a set of all extractors that don't list required strings
         self.unfiltered_extractors = set(
-            e for e in EXTRACTORS if not e.strings
+            e for e in self.extractors if not e.strings
         )
         # Build a pyahocorasick filter for all case-sensitive extractors
         self.case_sensitive_filter = self.make_ahocorasick_filter(
             (s, e)
-            for e in EXTRACTORS
+            for e in self.extractors
             if e.strings and not e.flags & re.I
             for s in e.strings
         )
         # Build a pyahocorasick filter for all case-insensitive extractors
         self.case_insensitive_filter = self.make_ahocorasick_filter(
             (s.lower(), e)
-            for e in EXTRACTORS
+            for e in self.extractors
             if e.strings and e.flags & re.I
             for s in e.strings
         )
@@ -463,6 +463,10 @@ class AhocorasickTokenizer(Tokenizer):
         text_filter = ahocorasick.Automaton()
         for string, extractors in grouped.items():
             text_filter.add_word(string, extractors)
+        if not grouped:
+            # pyahocorasick can't search an automaton without words; add a
+            # word that selects nothing so that iter() works
+            text_filter.add_word("\x00", [])
         text_filter.make_automaton()
         return text_filter
 
